@@ -248,9 +248,11 @@ def _ops(alpha: str, thorough: bool):
 
     def mkdir():
         return st.fixed_dictionaries({
-            "op": st.just("mkdir"), "t": _target(nm, 0.7, "dir"), "n2": st.tuples(st.integers(0, 3), fs.plain_names()).map(lambda t: t[1] if t[0] == 0 else None),
+            "op": st.just("mkdir"), "t": _target(nm, 0.6, "dir"), "n2": st.tuples(st.integers(0, 3), fs.plain_names()).map(lambda t: t[1] if t[0] == 0 else None),
             "mode": st.sampled_from([0o777, 0o777, 0o777, 0o777, 0o755, 0o700]),
-            "parents": st.booleans(), "exist_ok": st.sampled_from([True, True, False])})
+            # the callers' forms (exist_ok / parents+exist_ok) dominate
+            "pe": st.sampled_from([[False, True]] * 3 + [[True, True]] * 3 + [[False, False], [True, False]])}).map(
+                lambda d: {**{k: v for k, v in d.items() if k != "pe"}, "parents": d["pe"][0], "exist_ok": d["pe"][1]})
 
     def write():
         return st.fixed_dictionaries({"op": st.just("write_text"), "t": _target(nm, 0.6, "file"), "content": content})
